@@ -32,6 +32,46 @@ func packName(s string) ([]byte, error) {
 	return buf[:off], nil
 }
 
+// c03Compressed packs the name with compression enabled right after its own parent (the name
+// without its first label) has been packed into the same buffer, so that the packer takes its
+// pointer path: the verdict must still be "valid", and the octets must decode to the same labels.
+func c03Compressed(w *core.W, s string, n model.Name, valid bool, kind string, wit map[string]any) {
+	if len(n) < 2 {
+		return
+	}
+	tail := n[1:].Pres()
+	buf := make([]byte, 1400)
+	cm := map[string]int{}
+	var off1, off2 int
+	var err1, err2 error
+	if w.Guard("PackDomainName(compress)", wit, func() {
+		off1, err1 = dns.PackDomainName(tail, buf, 12, cm, true)
+		if err1 == nil {
+			off2, err2 = dns.PackDomainName(s, buf, off1, cm, true)
+		}
+	}) {
+		return
+	}
+	if err1 != nil {
+		return // the parent alone is not packable: judged on its own elsewhere
+	}
+	w.Count("compressed_packs", 1)
+	if (err2 == nil) != valid {
+		w.Violation(fmt.Sprintf("C03/PackDomainName-compressed-%v-model-%v/%s", err2 == nil, valid, c03Why(n, nil)), fmt.Sprintf("PackDomainName(%q) with compression after its parent %q: err=%v but the name is valid=%v (wire length %d, labels %v)", s, tail, err2, valid, n.WireLen(), labelLens(n)), wit)
+		return
+	}
+	if err2 != nil {
+		return
+	}
+	got, _, ptrs, derr := model.DecodeName(buf[:off2], off1)
+	if derr != nil || !got.Equal(n) {
+		w.Violation("C03/compressed-pack-octets/"+kind, fmt.Sprintf("PackDomainName(%q) with compression produced %s which decodes to %v (err %v)", s, hx(buf[off1:off2]), got, derr), wit)
+	}
+	if len(ptrs) > 0 {
+		w.Count("compressed_packs_with_pointer", 1)
+	}
+}
+
 // c03Text judges the library's treatment of one presentation string against the model.
 func c03Text(w *core.W, s string, kind string) {
 	w.Eval(1)
@@ -65,6 +105,9 @@ func c03Text(w *core.W, s string, kind string) {
 	}
 	if valid && err == nil && !bytes.Equal(wire, n.Wire()) {
 		w.Violation("C03/pack-octets/"+kind, fmt.Sprintf("PackDomainName(%q)\n got  %s\n want %s", s, hx(wire), hx(n.Wire())), wit)
+	}
+	if perr == nil {
+		c03Compressed(w, s, n, valid, kind, wit)
 	}
 	if w.WantSample() && valid {
 		w.Sample(map[string]any{"text": s, "wire": hx(n.Wire()), "kind": kind})
@@ -135,6 +178,7 @@ func c03Wire(w *core.W, n model.Name, kind string) {
 	if _, ok := dns.IsDomainName(s); !ok {
 		w.Violation("C03/emitted-name-rejected-by-IsDomainName/"+kind, fmt.Sprintf("IsDomainName(%q) is false for text the library itself produced from a valid wire name of %d octets", s, len(wire)), wit)
 	}
+	c03Compressed(w, s, n, true, kind, wit)
 	// the independent parser must read the library's text as the same name (unambiguous escaping)
 	if n2, fq, e := model.ParsePres(s); e != nil || !fq || !n2.Equal(n) {
 		w.Violation("C03/escaping-ambiguous/"+kind, fmt.Sprintf("text %q does not denote the original labels (independent reader: %v fqdn=%v err=%v)", s, n2, fq, e), wit)
